@@ -84,8 +84,10 @@ TRUSTED = [
     "control-flow interpreter of Skel (ALV/Model/C17Next.lean: firstWith / afterWith, nextPc; trusted as the reading of "
     "sequencing, with, for / while / break, short-circuit guards with go.is_set() as a yield point, try/finally, inlined "
     "calls) run over the regenerated AudioThread.run gives, for every state and every enabled step of a player, exactly "
-    "the program counter stepPlayer moves to.  NOT given: the same for stepMain (the successor of the control thread's "
-    "program counters in close / play carries data: which thread was found, how the with block was left), and the EFFECT "
+    "the program counter stepPlayer moves to; the same for stepMain inside each call (src_main_successor: play with "
+    "__init__ inlined, close with stop() inlined, pause / play / stop; the guard values are mainGv, the one piece of "
+    "control state besides the yield point is how the manager's lock block of close was left: kMRel none = by the "
+    "break).  NOT given: the script level of stepMain (nextCmd: which call comes next), and the EFFECT "
     "of each step on the state (which flag / list / stream field changes) as an interpretation of the skeleton's "
     "operation — those stay hand written, tied by the step-by-step replay; any change of a guard or of the order still "
     "breaks src_skeleton_is_documented",
@@ -181,7 +183,8 @@ MANIFEST = {
             "the code step by step along every explored schedule / call by call along every recording history; the "
             "synchronisation skeleton they follow (operations, order, lock nesting, guards, try/finally) and the two variant "
             "switches are extracted from the source on every run (translator c17_tr.py, theorems src_*), and the successor "
-            "structure of stepPlayer is the interpretation of the regenerated run() (src_run_successor).  No "
+            "structure of stepPlayer / of stepMain inside each call is the interpretation of the regenerated methods "
+            "(src_run_successor, src_main_successor).  No "
             "PENDING statement.  Known findings excluded by explicit hypotheses / recognised signatures: wait=True with a "
             "paused player (D10b), the last lock release of a player that left _threads before close looked (D15).  "
             "D26 (close / take with two active recording streams raised TypeError) is repaired in /repo (c60d4c5) and "
@@ -192,8 +195,9 @@ MANIFEST = {
                  "(ALV/Gen/C17Src.lean, deep embedding ALV.C17.Skel) and the src_* theorems re-check (decide) that it is the "
                  "skeleton the model documents, that the model's program counters are its yield points with the same held "
                  "locks, read the model's switches Cfg.fixed / FCfg.dieFixed from it, and (src_run_successor) that every step of "
-                 "a player thread moves its program counter where a control-flow interpreter of the skeleton "
-                 "(ALV/Model/C17Next.lean) goes from that yield point of the regenerated run(); step-by-step bisimulation against "
+                 "a player thread / (src_main_successor) of the control thread inside play / close / pause / play / stop moves "
+                 "its program counter where a control-flow interpreter of the skeleton (ALV/Model/C17Next.lean) goes from "
+                 "that yield point of the regenerated method; step-by-step bisimulation against "
                  "the real code under a deterministic scheduler",
 }
 
@@ -2009,7 +2013,7 @@ def extra_checks(eng):
         "under_the_translator": ["%s.%s" % m for m in c17_tr.METHODS],
         "theorems": ["src_skeleton_is_documented", "src_variant_is_modelled", "src_run_is_model", "src_play_is_model",
                      "src_close_is_model", "src_ctl_is_model", "src_yields_drive_the_steps", "src_shutdown",
-                     "src_run_successor", "src_run_successor_total"],
+                     "src_run_successor", "src_run_successor_total", "src_main_successor"],
         "switches_read_from_the_source": sw,
         "not_translated": c17_tr.NOT_TRANSLATED,
     }
